@@ -702,8 +702,13 @@ func fillHelperShape(f *ssa.Function) (bool, string) {
 			return true
 		}
 		if ph, ok := v.(*ssa.Phi); ok {
-			for _, e := range ph.Edges {
+			for k, e := range ph.Edges {
 				if !isNil(e) && e != errV && e != ssa.Value(ph) {
+					return false
+				}
+				// nil is the value before the first Read only: on a way that has passed the Read, the value is that Read's
+				// error (an error that is set back to nil behind a Read is an error swallowed)
+				if isNil(e) && read.Block().Dominates(ph.Block().Preds[k]) {
 					return false
 				}
 			}
